@@ -113,13 +113,6 @@ def random_scripts(seed, n, count, steps):
             elif x < 0.85:
                 s.append({"op": "broker", "pk": {"t": "publish", "id": rng.randrange(1, 4), "q": rng.choice([0, 1, 2]), "m": 0}})
                 s.append({"op": "poll"})
-            elif x < 0.89:
-                # a burst from the broker in one go (more than one read batch of the event loop), read by the polls that follow
-                k = rng.choice([9, 10, 11, 12, 21, 25])
-                for j in range(k):
-                    s.append({"op": "broker", "pk": {"t": "publish", "id": j % 50 + 1, "q": rng.choice([0, 1, 1]), "m": 0}})
-                for _ in range(k // 9 + 2):
-                    s.append({"op": "poll"})
             elif x < 0.93:
                 s.append({"op": "poll"})
             else:
@@ -128,6 +121,21 @@ def random_scripts(seed, n, count, steps):
                 up = False
                 wire = []
         out.append(s)
+    return out
+
+
+def burst_scripts():
+    """A burst from the broker in one go (more than one read batch of the event loop: readb stops after 10 packets), read by the
+    polls that follow. Nothing else happens on the connection (no user request, no failure), so the recorded behaviour does not
+    depend on which branch the event loop's select picks."""
+    out = []
+    for k in (9, 10, 11, 12, 21, 25):
+        for qs in ([1], [0, 1, 1]):
+            s = [{"op": "connect", "sp": False, "rm": 0}]
+            for j in range(k):
+                s.append({"op": "broker", "pk": {"t": "publish", "id": j % 50 + 1, "q": qs[j % len(qs)], "m": 0}})
+            s += [{"op": "poll"}] * (k // 9 + 4)
+            out.append(s)
     return out
 
 
@@ -241,6 +249,8 @@ def run_property(ctx, pid):
         n_events += e
     for version, n in ((4, 100), (5, 100)) if quick else ((4, 100), (5, 100), (4, 3), (5, 3), (4, 65535)):
         scripts = random_scripts(ctx.seed * 7 + version + n, n, 10 if quick else 40, 120 if quick else 300)
+        if pid == "C10" and n == 100:
+            scripts = scripts + burst_scripts()
         t, e = loop_traces(ctx, bindir, pid, version, min(n, 1000), scripts, "v%d_n%d" % (version, n)) if n <= 1000 else (0, 0)
         n_traces += t
         n_events += e
